@@ -234,9 +234,13 @@ WATCH_SCRIPTS = {
     # two half-written lock files in a row with nothing valid in between: the second one is young when the client's
     # timer, started on the first, runs out (recorded finding D9d: the timer belongs to the observer, not to the file)
     "w_two_half_written_in_a_row": [("P", 900, 900), ("X", 990, 990), ("F", 300), ("M",)],
+    # the meta file of a DEAD authority is still there (a cleaner crashed between its two renames) while a new, live authority
+    # has created lock.json and not yet written it: the dead pid in meta.json says nothing about the owner of this lock
+    "w_dead_meta_beside_starting_authority": [("DM",), ("P", 500, 800), ("F", 300), ("M",)],
+    "w_dead_meta_beside_empty_lock_then_handover": [("DM",), ("P0", 400, 700), ("F", 400), ("X", 400, 600), ("F", 300), ("M",)],
 }
 QUICK_SCRIPTS = ("w_plain", "w_handover_after_slow_start", "w_unreachable_meta_then_handover", "w_empty_file_handover", "w_long_half_written",
-                 "w_two_half_written_in_a_row")
+                 "w_two_half_written_in_a_row", "w_dead_meta_beside_starting_authority")
 GRACE_MS = 1000
 
 
@@ -350,6 +354,12 @@ def cli_watch_cases(v, wd, rip, ids=None):
                 os.remove(metaf)
                 with mu:
                     cur.update(state="written", phase=idx)
+            elif k == "DM":
+                gone = subprocess.Popen(["true"])
+                gone.wait()
+                with open(metaf, "w") as f:
+                    f.write(json.dumps({"endpoint": "http://127.0.0.1:9", "pid": gone.pid, "started_at_ms": 1, "workspace_root": ws}))
+                continue
             elif k == "M":
                 with open(metaf + ".tmp", "w") as f:
                     f.write(json.dumps({"endpoint": endpoint, "pid": me, "started_at_ms": 1, "workspace_root": ws}))
